@@ -59,6 +59,16 @@ def programs(tier):
     # the guarded element is also a macro definition (rendered in place)
     out.append(('on-macro-definition', doc({'tag': 'a', 'define_macro': 'm', 'onerror': fb, 'children': ['p', L(0), 'q']}),
                 o3(0)))
+    # what the failed element had defined is gone with it, and `error` exists in the fallback only
+    P = lambda n, t: {'tag': 'u', 'children': [t + '=', {'interp': {'pipe': [py('show(%s)' % n), py("'U'")]}}]}   # noqa: E731
+    out.append(('locals-of-failed-element', doc(P('v', '0'), {'tag': 'a', 'onerror': fb, 'children': [
+        {'tag': 'i', 'define': [['local', 'v', py('1')]], 'children': ['in', L(0)]}, 'tail']}, P('v', '1'), P('error', 'e')),
+        o3(0) + [['v', 'maybe3', 1]]))
+    out.append(('loop-variable-of-failed-element', doc({'tag': 'a', 'onerror': fb, 'children': [
+        {'tag': 'i', 'indent': 4, 'repeat': ['v', py('seq')], 'children': [{'interp': py('L(0) if v == 1 else v')}]}]},
+        P('v', '1')), [[0, 'out3', 0], ['seq', 'lenN', 2], ['v', 'maybe3', 1]]))
+    out.append(('global-of-failed-element-stays', doc({'tag': 'a', 'onerror': fb, 'children': [
+        {'tag': 'i', 'define': [['global', 'g', py('7')]], 'children': ['in', L(0)]}]}, P('g', 'g')), o3(0)))
     out.append(('fallback-fails', doc({'tag': 'a', 'onerror': fb, 'children': [
         {'tag': 'b', 'onerror': ['text', py('L(1)')], 'children': [L(0)]}, 'after']}), o3(0, 1)))
     out.append(('content', doc({'tag': 'a', 'content': ['text', py('L(0)')], 'onerror': fb, 'children': ['x']}),
